@@ -33,7 +33,6 @@ func VerifC14Load() {
 		} else {
 			verifAssert(!isCrc, "C14.load: well-formed payload with CRC64 checksum rejected")
 			verifAssert(!isFnv, "C14.load: well-formed payload with legacy FNV-1a checksum rejected")
-			verifAssert(got == nil, "C14.load: bytes returned together with an error")
 		}
 	case 1: // total but no checksum
 		p.setMeta(n, false, 0)
